@@ -35,7 +35,7 @@ def should_run(target, fs, spec_hashes):
     # If I have no outputs, but I have inputs, I should probably only run if my input
     # changed, but I don't have any output files to compare with, so I'll just run
     # every time.
-    if not target.outputs:
+    if not target.flattened_outputs():
         logger.debug("Target %s has no outputs and will always be scheduled", target)
         return True
 
